@@ -115,16 +115,22 @@ def errLine : Err → String
   | .unsupported => "UNSUPPORTED"
   | .fuel => "FUEL"
 
+/-- `tc`: `none` = the dialect's own option (`Parser::new`), `some b` = `trailing_commas` forced to `b` -/
+def parseAnswer (d lim toks : String) (tc : Option Bool) : String :=
+  match rowOf d, lim.toNat? with
+  | some r, some l =>
+    let ts := decodeToks toks
+    let c := cfgOfRow r
+    let c := match tc with | none => c | some b => { c with trailingCommas := b }
+    match parseDataType c (2 * ts.length + 8) l ts with
+    | .ok (t, rest) => "OK " ++ t.sexp ++ " REST " ++ toString rest.length
+    | .error e => errLine e
+  | _, _ => "bad-dialect"
+
 def handleParse (args : List String) : String :=
   match args with
-  | [d, lim, toks] =>
-    match rowOf d, lim.toNat? with
-    | some r, some l =>
-      let ts := decodeToks toks
-      match parseDataType (cfgOfRow r) (2 * ts.length + 8) l ts with
-      | .ok (t, rest) => "OK " ++ t.sexp ++ " REST " ++ toString rest.length
-      | .error e => errLine e
-    | _, _ => "bad-dialect"
+  | [d, lim, toks] => parseAnswer d lim toks none
+  | [d, lim, toks, tc] => parseAnswer d lim toks (some (tc == "1"))
   | _ => "bad-request"
 
 -- ------------------------------------------------------------------ S-expression reader
